@@ -232,14 +232,22 @@ where
 /// - *parse_proj* will replace `k` with `k_0` whenever it is encountered.
 ///
 pub fn parse_proj(definition: &str) -> Result<String, Error> {
-    // If it doesn't look like a PROJ string, we return it unchanged
-    if definition.contains('|') | !definition.contains("proj") {
+    // If it doesn't look like a PROJ string, we return it unchanged.
+    // What is written in comments does not count
+    let uncommented: String = definition
+        .replace('\r', "\n")
+        .lines()
+        .map(|line| line.split('#').next().unwrap_or(""))
+        .collect::<Vec<_>>()
+        .join("\n");
+    if uncommented.contains('|') | !uncommented.contains("proj") {
         return Ok(definition.to_string());
     }
     // Impose some line ending sanity and remove the PROJ '+' prefix
     let all = definition
         .replace("\r\n", "\n")
         .replace('\r', "\n")
+        .replace('\t', " ")
         .replace(" +", " ")
         .replace("\n+", "\n")
         .trim()
@@ -290,17 +298,18 @@ pub fn parse_proj(definition: &str) -> Result<String, Error> {
     for (step_index, step) in steps.iter().enumerate() {
         let mut elements: Vec<_> = step.split_whitespace().map(|x| x.to_string()).collect();
 
+        // An init clause is not supported, wherever in the step it is given
+        if elements.iter().any(|element| element.starts_with("init=")) {
+            return Err(Error::Unsupported(
+                "parse_proj does not support PROJ init clauses: ".to_string() + step,
+            ));
+        }
+
         // Move the "proj=..." element to the front of the collection, stripped for "proj="
         // and handle the pipeline globals, if any
         for (i, element) in elements.iter().enumerate() {
             // Mutating the Vec we are iterating over may seem dangerous but is
             // OK as we break out of the loop immediately after the mutation
-            if element.starts_with("init=") {
-                return Err(Error::Unsupported(
-                    "parse_proj does not support PROJ init clauses: ".to_string() + step,
-                ));
-            }
-
             if element.starts_with("proj=") {
                 elements.swap(i, 0);
                 elements[0] = elements[0][5..].to_string();
@@ -322,7 +331,7 @@ pub fn parse_proj(definition: &str) -> Result<String, Error> {
                     }
 
                     // Remove all cases of 'inv' from the global arguments
-                    let pipeline_globals_elements: Vec<String> = elements
+                    let mut pipeline_globals_elements: Vec<String> = elements
                         .join(" ")
                         .trim()
                         .to_string()
@@ -330,6 +339,8 @@ pub fn parse_proj(definition: &str) -> Result<String, Error> {
                         .filter(|x| x.trim() != "inv")
                         .map(|x| x.trim().to_string())
                         .collect();
+                    // The globals need the same tidying as the parameters of a step
+                    tidy_proj(&mut pipeline_globals_elements)?;
                     pipeline_globals = pipeline_globals_elements.join(" ").trim().to_string();
                     elements.clear();
                 }
